@@ -3,11 +3,13 @@
   reformat        ast.unparse(ast.parse(file)): drops comments, normalises quotes / parentheses / line breaks, moves every line
   rename-locals   every local variable (not parameter) of every function is renamed  name -> name_r (closures followed)
   extract-temps   in every simple statement, call-valued call arguments are hoisted into fresh temporaries
+  invert-if       `if c: A else: B` (no elif) becomes `if not c: B else: A`
+  flip-compare    `a < b` becomes `b > a` (single ordering comparisons whose operands have no side effects)
 The transformations were validated once by running the repository's own fast tests on a transformed copy (DESIGN.md 8.3).
 """
 import ast
 
-MODES = ('reformat', 'rename-locals', 'extract-temps')
+MODES = ('reformat', 'rename-locals', 'extract-temps', 'invert-if', 'flip-compare')
 
 
 class RenameLocals(ast.NodeTransformer):
@@ -142,6 +144,39 @@ class ExtractTemps(ast.NodeTransformer):
         return node
 
 
+class InvertIf(ast.NodeTransformer):
+    def __init__(self):
+        self.n = 0
+
+    def visit_If(self, node):
+        self.generic_visit(node)
+        if node.orelse and not (len(node.orelse) == 1 and isinstance(node.orelse[0], ast.If)):
+            t = node.test
+            if isinstance(t, ast.UnaryOp) and isinstance(t.op, ast.Not):
+                nt = t.operand
+            else:
+                nt = ast.UnaryOp(op=ast.Not(), operand=t)
+            node.test, node.body, node.orelse = nt, node.orelse, node.body
+            self.n += 1
+        return node
+
+
+class FlipCompare(ast.NodeTransformer):
+    FLIP = {ast.Lt: ast.Gt, ast.LtE: ast.GtE, ast.Gt: ast.Lt, ast.GtE: ast.LtE}
+
+    def __init__(self):
+        self.n = 0
+
+    def visit_Compare(self, node):
+        self.generic_visit(node)
+        if len(node.ops) == 1 and type(node.ops[0]) in self.FLIP:
+            # operands without calls: evaluation order is immaterial
+            if not any(isinstance(x, (ast.Call, ast.NamedExpr, ast.Await, ast.Yield)) for side in (node.left, node.comparators[0]) for x in ast.walk(side)):
+                node.left, node.comparators, node.ops = node.comparators[0], [node.left], [self.FLIP[type(node.ops[0])]()]
+                self.n += 1
+        return node
+
+
 def transform(text, mode, func_filter):
     tree = ast.parse(text)
     if mode == 'reformat':
@@ -151,6 +186,12 @@ def transform(text, mode, func_filter):
         tree = t.visit(tree)
     elif mode == 'extract-temps':
         t = ExtractTemps()
+        tree = t.visit(tree)
+    elif mode == 'invert-if':
+        t = InvertIf()
+        tree = t.visit(tree)
+    elif mode == 'flip-compare':
+        t = FlipCompare()
         tree = t.visit(tree)
     else:
         raise SystemExit('unknown mode ' + mode)
